@@ -1,3 +1,4 @@
+import Oidc.Proofs.CodeConfig
 import Oidc.Shapes
 import Oidc.Proofs.Codec
 import Oidc.Facts
@@ -91,5 +92,12 @@ theorem text_New_ok : Oidc.Shapes.Text_New := by unfold Oidc.Shapes.Text_New; rf
 /-! ## Program text of the helpers these theorems also rest on (constructors, accessors, token endpoint, configuration) -/
 theorem text_Config_Validate_ok : Oidc.Shapes.Text_Config_Validate := by unfold Oidc.Shapes.Text_Config_Validate; rfl
 theorem text_CreateConfig_ok : Oidc.Shapes.Text_CreateConfig := by unfold Oidc.Shapes.Text_CreateConfig; rfl
+
+
+/-! ### the configuration gate, translated from settings.go on every run -/
+
+/-- a configuration `Config.Validate` accepts has a session key of at least 32 bytes (the key space the opacity argument assumes) -/
+theorem code_validated_session_key_length (c : Go.Config) (h : Oidc.Generated.Code.Config_Validate c = none) :
+    (32 : Int) ≤ c.SessionEncryptionKey.length := (Oidc.CodeConfig.Validate_none c h).key
 
 end Oidc.Props.C09
